@@ -92,6 +92,8 @@ PROPS["C01"] = {
 PROPS["C04"] = {
     "groups": [
         {"crate": "std", "quick": ["c04::"], "jobs": 16, "mem_gb": 6, "timeout_s": 900},
+        # the other container kind: a mapped region (real GuestRegionMmap over a raw-pointer MmapRegion)
+        {"crate": "std", "quick": ["regn::region_"], "jobs": 6, "mem_gb": 10, "timeout_s": 900, "stubbed": True},
     ],
     "bounds": "container = every window (offset, length) of a 16-byte 8-aligned buffer with symbolic contents; addr/offset/count/index unconstrained usize; "
               "local byte buffers: every window of a 16-byte buffer with length <= 12 (both sides of the 8-byte volatile-copy threshold, every alignment); "
@@ -110,6 +112,10 @@ PROPS["C05"] = {
         # (b) page arithmetic of the real AtomicBitmap, (c) end-to-end with the real bitmap, region level with the recording bitmap
         {"crate": "std", "quick": ["c05e::", "c09::q_p3_s4::set_range", "c09::q_p7_s64::set_range", "c09::q_p4096_w1p_short::set_range", "c09::q_p7_s64::slices", "regn::region_write"],
          "jobs": 12, "mem_gb": 8, "timeout_s": 900, "stubbed": True},
+        # guest-memory level: bytes written through try_access are marked in the bitmap of the region that owns them, at that
+        # region's own offset, and nothing else is (c03::frame_and_bytes asserts both directions)
+        {"crate": "std", "quick": ["c03::r1::write"], "thorough": ["c03::r2::write"], "jobs": 4, "mem_gb": 10, "timeout_s": 1200, "timeout_thorough_s": 3600,
+         "unwindset": {"default": 5, "rules": _MOCK_RULES}},
     ],
     "bounds": _VS_BOUNDS + "; (b)/(c): real AtomicBitmap, page sizes 1,3,4,5,7,8,16,4096 as grid points, byte ranges unconstrained; region level: 16-byte raw-pointer region",
     "outside": "writes through raw pointers / references obtained from the library (exempt by the statement)",
@@ -121,6 +127,10 @@ PROPS["C16"] = {
         {"crate": "std", "quick": ["c16::"], "jobs": 16, "mem_gb": 6, "timeout_s": 900},
         {"crate": "std", "quick": ["c05e::", "c09::q_p3_s4::set_range", "c09::q_p7_s64::set_range", "c09::q_p4096_w1p_short::set_range", "c09::q_p1_s2::set_range", "regn::region_"],
          "jobs": 12, "mem_gb": 8, "timeout_s": 900, "stubbed": True},
+        # guest-memory level: bytes written through try_access are marked in the bitmap of the region that owns them, at that
+        # region's own offset, and nothing else is (c03::frame_and_bytes asserts both directions)
+        {"crate": "std", "quick": ["c03::r1::write"], "thorough": ["c03::r2::write"], "jobs": 4, "mem_gb": 10, "timeout_s": 1200, "timeout_thorough_s": 3600,
+         "unwindset": {"default": 5, "rules": _MOCK_RULES}},
     ],
     "bounds": _VS_BOUNDS + "; (b)/(c): real AtomicBitmap, page sizes 1,3,4,5,7,8,16,4096 as grid points, byte ranges unconstrained; region level: 16-byte raw-pointer region (reads mark nothing)",
     "outside": "",
